@@ -52,6 +52,9 @@ func (m *BDD) NewVar(name string) Node {
 	return m.mk(v, False, True)
 }
 
+// VarNode returns the node of variable i.
+func (m *BDD) VarNode(i int) Node { return m.mk(int32(i), False, True) }
+
 func (m *BDD) NumVars() int         { return len(m.varName) }
 func (m *BDD) VarName(i int) string { return m.varName[i] }
 func (m *BDD) Size() int            { return len(m.nodes) }
